@@ -1,6 +1,38 @@
+// vsched (E1): deterministic scheduler + virtual clock for nng, installed at link time with
+// GNU ld --wrap on the platform primitives (no source change in nng).
+#ifndef VERIF_VSCHED_H
+#define VERIF_VSCHED_H
 #include <stdint.h>
-void vs_init(uint64_t seed, int pct, int grace);
-void vs_settle(void);
-void vs_sleep(int ms);
+#ifdef __cplusplus
+extern "C" {
+#endif
+
+enum { VS_FIFO = 0, VS_RAND = 1, VS_PCT = 2 };
+
+typedef struct vs_cfg {
+	uint64_t seed;
+	int      mode;     // VS_FIFO run-to-block, VS_RAND pre-empt with probability pct/100, VS_PCT priorities
+	int      pct;      // VS_RAND: pre-emption probability in percent
+	int      depth;    // VS_PCT: number of priority change points
+	long     horizon;  // VS_PCT: change points are drawn in [0, horizon) scheduling steps
+	int      grace_ms; // real milliseconds to wait for kernel I/O before declaring "no I/O" (0 for AF_UNIX)
+	long     max_steps;      // livelock bound on scheduling steps (0 = default)
+	uint64_t max_virtual_ms; // livelock bound on virtual time (0 = default)
+} vs_cfg;
+
+void     vs_init(const vs_cfg *cfg); // the caller becomes controlled thread 0
+void     vs_fini(void);              // back to pass-through (all other controlled threads must be done)
+void     vs_settle(void);            // run everything else to quiescence at the current virtual time
+void     vs_sleep(int ms);           // let virtual time pass for the caller
 uint64_t vs_now(void);
-void vs_stats(long *steps, long *sw);
+int      vs_spawn(void (*fn)(void *), void *arg); // harness actor thread (controlled); returns handle
+void     vs_join(int h);
+void     vs_yield(void);
+void     vs_stats(long *steps, long *switches, long *preempts);
+int      vs_enabled(void);
+uint32_t vs_random(void); // the deterministic stream that also feeds nni_random
+
+#ifdef __cplusplus
+}
+#endif
+#endif
